@@ -58,7 +58,8 @@ def run(ctx):
     for f in ctx.read_jsonl("c14_failures.jsonl"):
         ctx.fail(f["class"], f["what"], input=f.get("input"), got=f.get("got"), want=f.get("want"))
 
-    # every executed statement through the Lean model of SQLite's tokenizer (the lexer of the theorems)
+    # every executed statement, and every statement text the builders returned in the "gen" stream, through the Lean
+    # model of SQLite's tokenizer (the lexer of the theorems)
     stmts = ctx.read_jsonl("c14_stmts.jsonl")
     lexed = 0
     if stmts:
@@ -88,8 +89,10 @@ def run(ctx):
         "statements_lexed": lexed,
         "distinct_nontrivial": c.get("distinct_nontrivial", 0),
         "rule": "gen: hostile filters (grammar-directed expressions with hostile string leaves, mutations, raw token soup), column/"
-                "sort/paging/table strings into the real generators; req: requests through ReadRows/DeleteRows/UpdateRows/InsertRows, "
-                "abstract variants and transaction tasks; half carry a filter with a known meaning (exact row sets checked), half "
+                "sort/paging/table/row-key strings into the real generators, incl. names that already look delimited (begin and end "
+                "with a double quote around live SQL) for every identifier position; the builders' statement texts are lexed like "
+                "the executed ones; req: requests through ReadRows/DeleteRows/UpdateRows/InsertRows, "
+                "abstract variants and transaction tasks (incl. drop, given names that are no table); half carry a filter with a known meaning (exact row sets checked), half "
                 "are hostile and carry a guard filter that matches nothing; non-trivial = distinct request that is hostile or "
                 "contains a quote, ';' or '-'",
         "samples": st.get("samples", []),
